@@ -8,6 +8,7 @@ leaseDuration,selfChanBalance,acctKey` (decimal, comma separated).
 * `consts`                                            → the regenerated constants the model uses
 * `prem <amt> <rate> <dur>`                           → `LumpSumPremium` | `ood`
 * `premi <amt> <rate> <dur>`                          → `Float64.premiumInt` (any int64 amount, amd64 out-of-range value)
+* `vu (<order> <unitsFilled>)*`                       → `ok` iff every pair passes `verifyUnitsOk` (unit checks of `Verify`)
 * `arch <state>`                                      → `State.Archived`
 * `tf <numChans> <feeRate> <ver>`                     → `EstimateTraderFee`
 * `rv <order> <baseFee> <feeRate> <ver>`              → `ReservedValue` | `panic` | `ood`
@@ -64,6 +65,19 @@ def run (args : List String) : String :=
     match a.toInt?, r.toNat?, d.toNat? with
     | some a, some r, some d => toString (Pool.Float64.premiumInt a r d)
     | _, _, _ => "bad-op"
+  | "vu" :: rest =>
+    -- pairs <order> <unitsFilled>: the verifier's unit checks for every matched order of a proposal
+    let rec go : List String → Option Bool
+      | [] => some true
+      | o :: u :: more =>
+        match parseOrder o, u.toNat?, go more with
+        | some o, some u, some b => some (verifyUnitsOk o u && b)
+        | _, _, _ => none
+      | _ => none
+    match go rest with
+    | some true => "ok"
+    | some false => "rej"
+    | none => "bad-op"
   | ["arch", s] => match s.toNat? with
     | some s => toString (archived s)
     | none => "bad-op"
